@@ -1,0 +1,15 @@
+//go:build verif
+
+package notify
+
+import (
+	"time"
+
+	"github.com/prometheus/alertmanager/eventrecorder"
+)
+
+// VerifCreateReceiverStage exposes createReceiverStage (the per-receiver pipeline: a FanoutStage of
+// MultiStage{ClusterWait, Dedup, Retry, SetNotifies} per integration) to the C20 verification harness.
+func VerifCreateReceiverStage(name string, integrations []Integration, wait func() time.Duration, notificationLog NotificationLog, metrics *Metrics, recorder eventrecorder.Recorder) Stage {
+	return createReceiverStage(name, integrations, wait, notificationLog, metrics, recorder)
+}
